@@ -14,6 +14,18 @@ from myst_parser.mdit_to_docutils.base import clean_astext
 from myst_parser.warnings_ import MystWarnings, create_warning
 
 
+def _footnote_config(document: nodes.document, name: str) -> bool:
+    """Return a footnote configuration value for the document.
+
+    This is the file-level value stored on the document by the renderer,
+    falling back to the global value in the document settings.
+    """
+    value = getattr(document, f"myst_{name}", None)
+    if value is None:
+        value = getattr(document.settings, f"myst_{name}", True)
+    return bool(value)
+
+
 class UnreferencedFootnotesDetector(Transform):
     """Detect unreferenced footnotes and emit warnings.
 
@@ -77,7 +89,7 @@ class SortFootnotes(Transform):
 
     def apply(self, **kwargs: t.Any) -> None:
         """Apply the transform."""
-        if not self.document.settings.myst_footnote_sort:
+        if not _footnote_config(self.document, "footnote_sort"):
             return
 
         ref_order: list[str] = [
@@ -103,7 +115,7 @@ class CollectFootnotes(Transform):
 
     def apply(self, **kwargs: t.Any) -> None:
         """Apply the transform."""
-        if not self.document.settings.myst_footnote_sort:
+        if not _footnote_config(self.document, "footnote_sort"):
             return
 
         footnotes: list[tuple[str, nodes.footnote]] = []
@@ -117,7 +129,7 @@ class CollectFootnotes(Transform):
 
         if (
             footnotes
-            and self.document.settings.myst_footnote_transition
+            and _footnote_config(self.document, "footnote_transition")
             # avoid warning: Document or section may not begin with a transition
             and not all(isinstance(c, nodes.footnote) for c in self.document.children)
         ):
